@@ -36,7 +36,10 @@ def T_order(ctx, lib):
 
 
 def check(ctx):
+    from rules import counts
     for cfg in configs(ctx.tier):
         ctx.cfg = cfg.name
         lib = ctx.load(cfg)
         T_order(ctx, lib)
+        counts.R_rec_counts(ctx, lib)
+        counts.R_rec_support(ctx, lib)
